@@ -11,6 +11,7 @@ REQUIRED_THEOREMS = ['Props.C17.each_fn_once', 'Props.C17.trace_linear', 'Props.
                      'Props.C17.untracked_has_no_history', 'Props.C17.loop_is_iterative_and_linear']
 REQUIRED_THEOREMS += ['Props.C17.src_explicit_stack_skeleton', 'Props.C17.src_explicit_stack_step']   # ties to tensor.py as read on this run
 REQUIRED_THEOREMS += ['Props.C17.backward_keeps_modes', 'Props.C17.untracked_after_backward']
+REQUIRED_THEOREMS += ['Props.C17.src_creation_rule_is_model', 'Props.C17.src_ctx_new_is_model', 'Props.C17.src_ctx_enter_is_model', 'Props.C17.src_ctx_exit_is_model']   # the untracked half rests on these
 RULE = ('chains of depth 10..2000 (quick) / 5000 (thorough) and wide fan-out graphs over add/mul/neg/clone, run through the '
         'model and the implementation with the full engine trace compared (each recorded op called exactly once, in a topological '
         'order); programs whose ops run under no_grad or on operands that do not require grad — every op of the catalogue, optional operands absent included — (results must hold no children and '
@@ -1233,9 +1234,31 @@ def oracle(c):
         if f: return f
     io = _io(c)
     depth = 0
+    ckinds, active, made = [], [], 0
     for li, (l, o) in enumerate(zip(c['lines'], io)):
         if c['kind'] == 'untracked' and 'op' not in c and l.startswith('t ctx e'):
             depth += 1 if l.startswith('t ctx enter') else -1
+        if c['kind'] == 'untracked' and 'op' not in c:
+            # tracking switched on while a no_grad block is active (seen at a `t modes` line): whatever is computed in the rest of the
+            # block keeps its history — shown by computing one more result from a tracked leaf right there
+            t_ = l.split()
+            try:
+                if l.startswith('t ctx new'): ckinds.append(t_[3])
+                elif l.startswith('t ctx enter'): active.append(int(t_[3]))
+                elif l.startswith('t ctx exit') and int(t_[3]) in active: active.reverse(); active.remove(int(t_[3])); active.reverse()
+                if l.startswith('t modes') and o[:1] == '1' and any(ckinds[k] == 'ng' for k in active):
+                    src = next((i_ for i_, x in enumerate([y for y in c['lines'][:li] if y.startswith(('t leaf', 't op'))]) if x.startswith('t leaf') and x.split()[4] == '1'), None)
+                    n_t = sum(1 for y in c['lines'][:li] if y.startswith(('t leaf', 't op')))
+                    if src is not None:
+                        ext = c['lines'][:li + 1] + [f't op neg {src}', f't flags {n_t}']
+                        o2 = tprog.run_program(ext)[-1]
+                        if ' ' in o2:
+                            f2 = dict(kv.split('=') for kv in o2.split(' '))
+                            if f2.get('rg') != '0' or f2.get('children') != '0' or f2.get('fn') != '0':
+                                return {'key': {'cls': 'history-inside-no_grad'}, 'case': {'kind': c['kind'], 'lines': ext},
+                                        'what': f'tracking is on inside an active no_grad block (modes {o}); a result computed there is tracked: {o2}'}
+            except (IndexError, ValueError):
+                pass
         if c['kind'] == 'untracked' and depth > 0 and l.startswith('t flags') and ' ' in o:
             f = dict(kv.split('=') for kv in o.split(' '))
             if f['rg'] != '0' or f['children'] != '0' or f['fn'] != '0':
